@@ -65,7 +65,12 @@ fn quit_event() -> Event {
 
 pub fn run_one(args: &ShardArgs, rng: &mut Rng, rep: &mut Report, i: usize) {
 	if i % 4 == 3 {
-		signals_and_keyboard(rep);
+		let b = rng.chance(2, 3);
+		let n = 1 + rng.usize(4);
+		if b {
+			rep.count("keyboard_eof_through_a_pipe_after_other_config_changes", 1);
+		}
+		signals_and_keyboard(rep, b, n);
 	} else {
 		fs_scenario(args, rng, rep, i);
 	}
@@ -343,7 +348,7 @@ fn delivered_ids(batches: &[Vec<Event>]) -> BTreeMap<u64, usize> {
 }
 
 /// Signals sent to this very process and keyboard EOF (stdin is /dev/null for engine shards).
-fn signals_and_keyboard(rep: &mut Report) {
+fn signals_and_keyboard(rep: &mut Report, variant_b: bool, nchanges: usize) {
 	use nix::sys::signal::{kill, Signal as NSig};
 	use nix::unistd::Pid;
 	let rt = tokio::runtime::Builder::new_multi_thread().worker_threads(2).enable_all().build().expect("runtime");
@@ -411,17 +416,63 @@ fn signals_and_keyboard(rep: &mut Report) {
 				));
 			}
 		}
-		// keyboard EOF: stdin is at EOF, enabling the source must give exactly one event
-		wx.config.keyboard_events(true);
-		let t = std::time::Instant::now();
+		// keyboard EOF. Variant A: stdin (/dev/null for engine shards) is already at EOF, enabling the source must give
+		// exactly one event. Variant B: stdin is an open pipe; the source is enabled, other settings change a few times
+		// while it waits, then the write end is closed: exactly one event, also after further configuration changes.
 		let eofs = |b: &Arc<Mutex<Vec<(u64, Vec<Event>)>>>| b.lock().unwrap().iter().flat_map(|x| x.1.iter()).filter(|e| e.tags.contains(&Tag::Keyboard(Keyboard::Eof))).count();
+		let mut pipe_w = -1;
+		if variant_b {
+			let mut fds = [0i32; 2];
+			if unsafe { libc::pipe(fds.as_mut_ptr()) } == 0 {
+				unsafe {
+					libc::dup2(fds[0], 0);
+					libc::close(fds[0]);
+				}
+				pipe_w = fds[1];
+			}
+		}
+		wx.config.keyboard_events(true);
+		if pipe_w >= 0 {
+			tokio::time::sleep(Duration::from_millis(40)).await;
+			for k in 0..nchanges {
+				match k % 3 {
+					0 => wx.config.throttle(Duration::from_millis(11 + k as u64)),
+					1 => wx.config.pathset(["/"; 0]),
+					_ => wx.config.keyboard_events(true),
+				};
+				tokio::time::sleep(Duration::from_millis(25)).await;
+			}
+			if eofs(&batches) != 0 {
+				findings.push(("C01/keyboard-eof/spurious".into(), "a keyboard EOF event was delivered while stdin was still open".into()));
+			}
+			unsafe { libc::close(pipe_w) };
+		}
+		let t = std::time::Instant::now();
 		while eofs(&batches) == 0 && t.elapsed() < Duration::from_secs(3) {
 			tokio::time::sleep(Duration::from_millis(2)).await;
 		}
 		tokio::time::sleep(Duration::from_millis(50)).await;
-		let n = eofs(&batches);
+		let mut n = eofs(&batches);
+		if n == 1 && pipe_w >= 0 {
+			// later configuration changes must not produce the event again
+			wx.config.throttle(Duration::from_millis(9));
+			tokio::time::sleep(Duration::from_millis(30)).await;
+			wx.config.pathset(["/"; 0]);
+			tokio::time::sleep(Duration::from_millis(80)).await;
+			n = eofs(&batches);
+		}
 		if n != 1 {
-			findings.push((format!("C01/keyboard-eof/{}", if n == 0 { "lost" } else { "duplicate" }), format!("stdin at EOF produced {n} keyboard EOF events")));
+			findings.push((
+				format!("C01/keyboard-eof/{}", if n == 0 { "lost" } else { "duplicate" }),
+				format!("stdin reaching EOF ({}) produced {n} keyboard EOF events", if pipe_w >= 0 { format!("pipe closed after {nchanges} other configuration changes") } else { "already at EOF when enabled".into() }),
+			));
+		}
+		if pipe_w >= 0 {
+			// back to /dev/null for whatever runs next in this process
+			if let Ok(f) = std::fs::File::open("/dev/null") {
+				use std::os::fd::AsRawFd;
+				unsafe { libc::dup2(f.as_raw_fd(), 0) };
+			}
 		}
 		wx.send_event(quit_event(), Priority::Urgent).await.ok();
 		tokio::time::timeout(Duration::from_secs(10), main).await.ok();
